@@ -83,7 +83,7 @@ CLAIMED = {
   technique="static analysis: wire-length guard analysis with wrap-safety, definition provenance of comparison operands, typed-AST table agreement, enum exhaustiveness, per-iteration marked path exploration",
   ref="§9 C12"),
  "C09": dict(
-  text="Structural clauses of snapshot/compaction safety: in compactGroup the input files are replaced only on paths where CompactFast/CompactFull returned nil, the only other replacement removes the one unreadable file named by an errBlockRead, and the outputs of a failed installation are removed; the cache snapshot and WAL segments are released only after FileStore.Replace returned nil; the verbatim pass-through decision of all ten generated merge<T> variants tests tombstones and partial reads for the first and for every later block and overlap for every later block; block records taken from the reuse buffer have every struct field re-assigned, and their tombstones come from the reader of the iterator that produced the block; writeNewFiles returns file names only after write() succeeded.",
+  text="Structural clauses of snapshot/compaction safety: in compactGroup the input files are replaced only on paths where CompactFast/CompactFull returned nil, the only other replacement removes the one unreadable file named by an errBlockRead, and the outputs of a failed installation are removed; the cache snapshot and WAL segments are released only after FileStore.Replace returned nil; the verbatim pass-through decision of all ten generated merge<T> variants tests tombstones and partial reads for the first and for every later block and overlap for every later block; block records taken from the reuse buffer have every struct field re-assigned, and their tombstones come from the reader of the iterator that produced the block; writeNewFiles returns file names only after write() succeeded; the reservation of the input files is released on every exit of CompactFull/CompactFast; Compactor.write looks at the enabled flags before every block read; compactGroup removes only elements of the slice the compaction returned.",
   note="Does not decide value-level merge arithmetic (newest wins, excluded ranges), block size/count limits, or sortedness of output blocks.",
   technique="static analysis: path exploration with outcome facts, attribute-set comparison between first-block test and per-block loop, struct-field coverage of re-initialisation, definition provenance",
   ref="§9 C09"),
@@ -93,7 +93,7 @@ CLAIMED = {
   technique="static analysis: struct-field coverage of codecs, marked path exploration + exhaustive evaluation of compiled path conditions over all weak orderings, comparison-sequence mirror agreement",
   ref="§9 C11"),
  "C14": dict(
-  text="Structural clauses of index/data agreement: every path to the engine write in Shard.WritePointsWithContext passes validateSeriesAndFields and an error of CreateSeriesListIfNotExists surfaces; the engine is published in the shard only after index Open and LoadMetadataIndex returned nil, each batch scan of LoadMetadataIndex is followed on every path by the flush of the partial last batch and no addToIndexFromKey error is dropped; the TSI log file's existence and tombstone sets stay complementary (an id added to one is removed from the other in the same branch); wherever a series is attached to an in-memory measurement its Measurement back-pointer is that measurement; SeriesIndex.FindIDBySeriesKey never returns an id without having tested IsDeleted for it on that path. The 'drop only when no data remains' clause is decided under C10.",
+  text="Structural clauses of index/data agreement: every path to the engine write in Shard.WritePointsWithContext passes validateSeriesAndFields and an error of CreateSeriesListIfNotExists surfaces; the engine is published in the shard only after index Open and LoadMetadataIndex returned nil, each batch scan of LoadMetadataIndex is followed on every path by the flush of the partial last batch and no addToIndexFromKey error is dropped; the TSI log file's existence and tombstone sets stay complementary (an id added to one is removed from the other in the same branch); wherever a series is attached to an in-memory measurement its Measurement back-pointer is that measurement; SeriesIndex.FindIDBySeriesKey never returns an id without having tested IsDeleted for it on that path. a delete queues a series for index removal only when its key was not crossed out and the cache holds no values of it (the order and completeness of the crossing-out passes are decided under C10).",
   note="Does not decide that index answers equal the written-and-not-dropped series after arbitrary histories, agreement of the two index types, TSI compaction merge semantics, or predicate evaluation.",
   technique="static analysis: must-precede and outcome facts, path avoidance between scan and flush, paired set operations per branch, definition provenance, path exploration with condition facts",
   ref="§9 C14"),
